@@ -15,8 +15,8 @@ EXTENDS Integers, Sequences, FiniteSets, TLC, Json
 
 CONSTANTS TraceFile, OutFile
 Trace == ndJsonDeserialize(TraceFile)
-VARIABLES l, g, rets, viol, done
-vars == <<l, g, rets, viol, done>>
+VARIABLES l, g, rets, cbs, viol, done
+vars == <<l, g, rets, cbs, viol, done>>
 Rec == Trace[l]
 Rng(s) == {s[i] : i \in 1..Len(s)}
 V(checks) == viol' = viol \cup {[t |-> Rec.t, i |-> Rec.i, inv |-> c[1]] : c \in {c \in checks : ~c[2]}}
@@ -27,19 +27,24 @@ RECURSIVE ReachFrom(_, _)
 ReachFrom(S, seen) == IF S \subseteq seen THEN seen ELSE ReachFrom(UNION {Succ(n) : n \in S}, seen \cup S)
 Want == ReachFrom({g.root}, {})
 
-Init == l = 1 /\ g = [n |-> 0] /\ rets = {} /\ viol = {} /\ done = FALSE
-EvInit == Rec.e = "init" /\ g' = Rec /\ rets' = {} /\ UNCHANGED viol
+Init == l = 1 /\ g = [n |-> 0] /\ rets = {} /\ cbs = {} /\ viol = {} /\ done = FALSE
+EvInit == Rec.e = "init" /\ g' = Rec /\ rets' = {} /\ cbs' = {} /\ UNCHANGED viol
+\* callbacks of each call (C04): every node a call announced with PreCopy gets that call's PostCopy, also when the other
+\* call's push of the same node won the race
+EvCb == Rec.e = "cb" /\ cbs' = cbs \cup {<<Rec.call, Rec.n, Rec.k>>} /\ UNCHANGED <<g, rets, viol>>
 EvPush ==
   /\ Rec.e = "pushE"
   /\ V({<<"TwinClosedAtPush", Closed(Rng(Rec.has))>>,
         <<"TwinPushAfterSucc", (Rec.n # 0 /\ Rec.n \in Rng(Rec.has)) => Succ(Rec.n) \subseteq Rng(Rec.has)>>})
-  /\ UNCHANGED <<g, rets>>
+  /\ UNCHANGED <<g, rets, cbs>>
 EvRet ==
   /\ Rec.e = "ret"
   /\ rets' = rets \cup {Rec}
   /\ V({<<"TwinNoSpuriousError", ~Rec.err>>,
-        <<"TwinReturnedRoot", ~Rec.err => Rec.root = g.root>>})
-  /\ UNCHANGED g
+        <<"TwinReturnedRoot", ~Rec.err => Rec.root = g.root>>,
+        <<"TwinPreThenPost", ~Rec.err => \A c \in cbs : (c[1] = Rec.call /\ c[3] = "pre") => <<c[1], c[2], "post">> \in cbs>>,
+        <<"TwinSkippedAlone", \A c \in cbs : (c[1] = Rec.call /\ c[3] = "skipped") => <<c[1], c[2], "pre">> \notin cbs>>})
+  /\ UNCHANGED <<g, cbs>>
 EvFinal ==
   /\ Rec.e = "final"
   /\ LET has == Rng(Rec.has)  good == Rng(Rec.bytesok)
@@ -50,20 +55,20 @@ EvFinal ==
            <<"TwinSuccessComplete", \A r \in rets : ~r.err => (Want \subseteq has /\ Want \subseteq good)>>,
            <<"TwinEdgesResolvable", \A r \in rets : ~r.err => \A i \in 1..Len(Rec.dangling) : Rec.dangling[i][1] \notin Want>>,
            <<"TwinRootTagged", \A r \in rets : ~r.err => TagOf(g.refs[r.call]) = g.root>>})
-  /\ UNCHANGED <<g, rets>>
-EvHang == Rec.e = "hang" /\ V({<<"TwinNoHang", FALSE>>}) /\ UNCHANGED <<g, rets>>
-EvOther == Rec.e \notin {"init", "pushE", "ret", "final", "hang"} /\ UNCHANGED <<g, rets, viol>>
+  /\ UNCHANGED <<g, rets, cbs>>
+EvHang == Rec.e = "hang" /\ V({<<"TwinNoHang", FALSE>>}) /\ UNCHANGED <<g, rets, cbs>>
+EvOther == Rec.e \notin {"init", "pushE", "ret", "final", "hang", "cb"} /\ UNCHANGED <<g, rets, cbs, viol>>
 
 Step ==
   /\ l <= Len(Trace)
   /\ l' = l + 1
   /\ done' = FALSE
-  /\ \/ EvInit \/ EvPush \/ EvRet \/ EvFinal \/ EvHang \/ EvOther
+  /\ \/ EvInit \/ EvPush \/ EvRet \/ EvFinal \/ EvHang \/ EvCb \/ EvOther
 Finish ==
   /\ l = Len(Trace) + 1 /\ ~done
   /\ done' = TRUE
   /\ JsonSerialize(OutFile, [consumed |-> l - 1, viol |-> viol])
-  /\ UNCHANGED <<l, g, rets, viol>>
+  /\ UNCHANGED <<l, g, rets, cbs, viol>>
 Next == Step \/ Finish
 Spec == Init /\ [][Next]_vars
 Consumed == TLCGet("stats").diameter = Len(Trace) + 2
